@@ -527,8 +527,8 @@ impl Prop for C06 {
     }
     fn budget(&self, tier: Tier) -> Budget {
         match tier {
-            Tier::Quick => Budget { cases: 48_000, max_tape: 256 },
-            Tier::Thorough => Budget { cases: 1_000_000, max_tape: 512 },
+            Tier::Quick => Budget { cases: 800_000, max_tape: 256 },
+            Tier::Thorough => Budget { cases: 12_000_000, max_tape: 512 },
         }
     }
     fn items(&self, _tier: Tier) -> u64 {
